@@ -29,7 +29,7 @@ ASSUMPTIONS = [
 ]
 REQUIRED = ['endpoint_server', 'endpoint_client', 'endpoint_file', 'partial_send_requeued', 'accept_zero', 'eagain_injected', 'eintr_injected',
             'enobufs_injected', 'fatal_injected', 'close_while_buffered', 'close_after_drain', 'two_connections_interleaved', 'empty_payload',
-            'write_after_close_request']
+            'write_after_close_request', 'server_wide_close']
 REQUIRED_OBLIGATIONS = ['PREFIX', 'ALL_DELIVERED', 'CLOSE_WAITS_FOR_BUFFER', 'NO_SEND_AFTER_CLOSE', 'FATAL_SIGNALLED', 'CLOSE_HAPPENS']
 WORKER_TIMEOUT = {'quick': 300, 'thorough': 1800}
 EXHAUSTIVE = {'quick': 'all send scripts of length <= 3 over 8 outcomes x 3 payload sets x 4 close positions x 3 endpoints',
@@ -193,6 +193,7 @@ def make_world(endpoint, scripts):
             socks.append(s)
         W.update(write=lambda i, d: (root.fire(nev.write(socks[i], d), 'srv'), settle()),
                  close=lambda i: (root.fire(nev.close(socks[i]), 'srv'), settle()),
+                 close_all=lambda: (root.fire(nev.close(), 'srv'), settle()),
                  socks=socks, comp=srv, chan='srv', listen=listen)
     elif endpoint == 'client':
         from circuits.net.sockets import TCPClient
@@ -288,8 +289,12 @@ def run_case(case):
                 for j in range(nconn):
                     if scripts[j].accepted != written[j] and not scripts[j].dead:
                         marks.add('close_while_buffered')
-                    W['close'](j)
+                    if not case.get('close_all'):
+                        W['close'](j)
                     close_req[j] = True
+                if case.get('close_all'):
+                    marks.add('server_wide_close')
+                    W['close_all']()   # close() without a socket: the whole server, every connection after its buffer drained
             if close_req[i]:
                 marks.add('write_after_close_request')
             if not data:
@@ -310,8 +315,12 @@ def run_case(case):
                         marks.add('close_while_buffered')
                     else:
                         marks.add('close_after_drain')
-                    W['close'](j)
+                    if not case.get('close_all'):
+                        W['close'](j)
                     close_req[j] = True
+                if case.get('close_all'):
+                    marks.add('server_wide_close')
+                    W['close_all']()
             budget = 6 + 2 * sum(len(s.outcomes) for s in scripts) + 2 * len(steps) + (40 if case.get('big') else 0)
             for r in range(budget):
                 n = W['pump']()
@@ -411,6 +420,8 @@ def enum_cases(maxlen, part, parts):
                         if n % parts != part:
                             continue
                         yield {'endpoint': endpoint, 'payloads': pset, 'script': list(script), 'close_at': close_at}
+                        if endpoint == 'server' and close_at in (None, 1):
+                            yield {'endpoint': endpoint, 'payloads': pset, 'script': list(script), 'close_at': close_at, 'close_all': True}
 
 
 def corpus():
@@ -426,6 +437,7 @@ def corpus():
     for s1, s2 in ((['P', 'EAGAIN'], ['EINTR', 'P', 'Z']), (['EPIPE'], ['P', 'P']), (['ENOBUFS', 'P'], ['ECONNRESET'])):
         for close_at in (None, 1, 3):
             cs.append({'endpoint': 'server', 'two': True, 'payloads': 's', 'script': s1, 'script2': s2, 'close_at': close_at})
+            cs.append({'endpoint': 'server', 'two': True, 'payloads': 's', 'script': s1, 'script2': s2, 'close_at': close_at, 'close_all': True})
     return cs
 
 
@@ -440,6 +452,8 @@ def gen_case(rng):
     pset = rng.choice('sem')
     case = {'endpoint': rng.choice(['server', 'client', 'file']), 'payloads': pset, 'script': script,
             'close_at': rng.choice([None, 0, 1, 2, len(PAYLOAD_SETS[pset]) - 1]), 'pump_between': rng.random() < 0.7}
+    if case['endpoint'] == 'server' and rng.random() < 0.3:
+        case['close_all'] = True
     if case['endpoint'] == 'server' and rng.random() < 0.4:
         case['two'] = True
         case['script2'] = [rng.choice(OUTCOMES[:6]) for _ in range(rng.randint(0, 6))]
